@@ -1201,3 +1201,545 @@ Proof.
   intro t. unfold cc_type. rewrite supported_cc. destruct (cc (S (tsize t)) t); split; congruence.
 Qed.
 Print Assumptions supported_compiles.
+
+(* ====================================================================== *)
+(* Part 5: C12 - the folded value is the documented one                    *)
+(* ====================================================================== *)
+
+(* ---------- the local functions of spec_fold, named ---------- *)
+Definition Sim (f : nat) :=
+  fix im (g : nat) (inif : bool) (t : gtype) (v : gvalue) : option (list (bytes * cvalue)) :=
+    match g with
+    | O => None
+    | S g' =>
+        match under t, v with
+        | TIface, GNil | TMap _, GNil => Some []
+        | TPtr _, GNil => if inif then None else Some []
+        | TPtr u, GPtr x => im g' inif u x
+        | TIface, GIface dt dv => im g' true dt dv
+        | (TStruct _ | TMap _), _ =>
+            match spec_fold f t v with Some (CObj ms) => Some ms | _ => None end
+        | _, _ => None
+        end
+    end.
+
+Definition Sfields (f : nat) :=
+  fix fields (fs : list (bytes * bytes * gtype)) (vs : list gvalue) (acc : list (bytes * cvalue))
+    : option cvalue :=
+    match fs, vs with
+    | (name, tag, ft) :: fr, fv :: vr =>
+        if negb (exported name) then fields fr vr acc else
+        let '(tn, o) := parse_tags tag in
+        if t_squash o && t_omitempty o then None
+        else if t_omit o then fields fr vr acc
+        else if t_squash o then
+          match Sim f (S f) false ft fv with
+          | Some ms => fields fr vr (rev ms ++ acc)
+          | None => None
+          end
+        else if t_omitempty o && spec_empty (S f) ft fv then fields fr vr acc
+        else
+          match spec_fold f ft fv with
+          | Some x => fields fr vr ((field_name name tn, x) :: acc)
+          | None => None
+          end
+    | _, _ => Some (CObj (rev acc))
+    end.
+
+Lemma spec_fold_O t v : spec_fold O t v = None.
+Proof. reflexivity. Qed.
+
+Lemma spec_fold_S f t v :
+  spec_fold (S f) t v =
+  match under t, v with
+  | TBool, GBool b => Some (CBool b)
+  | TString, GStr s => Some (CStr s)
+  | TNum k, GNum z => Some (spec_num k z)
+  | TPtr _, GNil | TIface, GNil => Some CNil
+  | TPtr u, GPtr x => spec_fold f u x
+  | TIface, GIface dt dv => spec_fold f dt dv
+  | TSlice _, GNil => Some (CArr [])
+  | (TSlice u | TArray _ u), GList l =>
+      match opt_all (map (spec_fold f u) l) with Some vs => Some (CArr vs) | None => None end
+  | TMap _, GNil => Some (CObj [])
+  | TMap u, GMap kvs =>
+      match opt_all (map (fun kv => match spec_fold f u (snd kv) with
+                                    | Some x => Some (fst kv, x) | None => None end) kvs) with
+      | Some ms => Some (CObj ms)
+      | None => None
+      end
+  | TStruct fs, GStruct vs => Sfields f fs vs []
+  | _, _ => None
+  end.
+Proof. reflexivity. Qed.
+
+Lemma Sim_O f inif t v : Sim f O inif t v = None.
+Proof. reflexivity. Qed.
+
+Lemma Sim_S f g inif t v :
+  Sim f (S g) inif t v =
+  match under t, v with
+  | TIface, GNil | TMap _, GNil => Some []
+  | TPtr _, GNil => if inif then None else Some []
+  | TPtr u, GPtr x => Sim f g inif u x
+  | TIface, GIface dt dv => Sim f g true dt dv
+  | (TStruct _ | TMap _), _ =>
+      match spec_fold f t v with Some (CObj ms) => Some ms | _ => None end
+  | _, _ => None
+  end.
+Proof. reflexivity. Qed.
+
+Lemma spec_empty_S f t v :
+  spec_empty (S f) t v =
+  match under t, v with
+  | (TPtr _ | TIface), GNil => true
+  | TPtr u, GPtr x => spec_empty f u x
+  | TIface, GIface dt dv => spec_empty f dt dv
+  | TString, GStr s => zlen s =? 0
+  | (TSlice _ | TMap _ | TMapK _), GNil => true
+  | (TSlice _ | TArray _ _), GList l => zlen l =? 0
+  | (TMap _ | TMapK _), GMap l => zlen l =? 0
+  | _, _ => false
+  end.
+Proof. reflexivity. Qed.
+
+Lemma spec_empty_O t v : spec_empty O t v = false.
+Proof. reflexivity. Qed.
+
+#[local] Opaque spec_fold spec_empty.
+
+(* ---------- sizes ---------- *)
+Definition vsum (l : list gvalue) : nat := fold_right (fun x a => (vsize x + a)%nat) O l.
+Definition vsum_kv (l : list (bytes * gvalue)) : nat := fold_right (fun kv a => (vsize (snd kv) + a)%nat) O l.
+Definition tsum :=
+  fix go (l : list (bytes * bytes * gtype)) : nat :=
+    match l with [] => O | (_, _, ft) :: r => S (tsize ft + go r) end.
+
+Lemma vsize_list l : vsize (GList l) = S (vsum l). Proof. reflexivity. Qed.
+Lemma vsize_map l : vsize (GMap l) = S (vsum_kv l). Proof. reflexivity. Qed.
+Lemma vsize_struct l : vsize (GStruct l) = S (vsum l). Proof. reflexivity. Qed.
+Lemma tsize_struct fs : tsize (TStruct fs) = S (tsum fs). Proof. reflexivity. Qed.
+
+Lemma vsize_pos v : (1 <= vsize v)%nat.
+Proof. destruct v; cbn [vsize]; lia. Qed.
+Lemma tsize_pos t : (1 <= tsize t)%nat.
+Proof. destruct t; cbn [tsize]; lia. Qed.
+
+Lemma vsum_in x l : In x l -> (vsize x <= vsum l)%nat.
+Proof.
+  induction l as [|y l IH]; [contradiction|]. intros [->|H]; cbn [vsum fold_right]; [lia|].
+  specialize (IH H). unfold vsum in IH. lia.
+Qed.
+Lemma vsum_kv_in kv l : In kv l -> (vsize (snd kv) <= vsum_kv l)%nat.
+Proof.
+  induction l as [|y l IH]; [contradiction|]. intros [->|H]; cbn [vsum_kv fold_right]; [lia|].
+  specialize (IH H). unfold vsum_kv in IH. lia.
+Qed.
+
+Definition msz (t : gtype) (v : gvalue) : nat := (tsize t + vsize v)%nat.
+
+Lemma base_tsize t : forall m b, base_type t = (m, b) -> tsize t = (m + tsize b)%nat.
+Proof.
+  induction t; intros m b H; try (inversion H; subst; reflexivity).
+  cbn [base_type] in H. destruct (base_type t) as [n' b'] eqn:E. inversion H; subst.
+  cbn [tsize]. rewrite (IHt n' b eq_refl). lia.
+Qed.
+
+Lemma deref_vsize m : forall v bv, deref m v = Some bv -> vsize v = (m + vsize bv)%nat.
+Proof.
+  induction m as [|m IH]; intros v bv H; cbn [deref] in H; [inversion H; reflexivity|].
+  destruct v; try discriminate H. cbn [vsize]. rewrite (IH _ _ H). lia.
+Qed.
+
+Lemma type_ok_base t : forall m b, type_ok t = true -> base_type t = (m, b) -> type_ok b = true.
+Proof.
+  induction t; intros m b Ht Eb; try (inversion Eb; subst; exact Ht).
+  cbn [base_type] in Eb. destruct (base_type t) as [n' b'] eqn:E. inversion Eb; subst.
+  eapply IHt; [exact Ht|reflexivity].
+Qed.
+
+(* ---------- the spec along a pointer chain ---------- *)
+Lemma spec_fold_ptr t : forall m b v bv g,
+  base_type t = (m, b) -> deref m v = Some bv -> spec_fold (m + g) t v = spec_fold g b bv.
+Proof.
+  induction t; intros m b v bv g Hb Hd;
+    try (inversion Hb; subst; cbn [deref] in Hd; inversion Hd; subst; reflexivity).
+  cbn [base_type] in Hb. destruct (base_type t) as [n' b'] eqn:E. inversion Hb; subst.
+  cbn [deref] in Hd. destruct v; try discriminate Hd.
+  cbn [Nat.add]. rewrite spec_fold_S. cbn [under]. apply IHt; [reflexivity|exact Hd].
+Qed.
+
+Lemma spec_fold_nilptr t : forall m b v g,
+  base_type t = (m, b) -> deref m v = None -> hty t v = true -> (m <= g)%nat ->
+  spec_fold g t v = Some CNil.
+Proof.
+  induction t; intros m b v g Hb Hd Hv Hg;
+    try (inversion Hb; subst; cbn [deref] in Hd; discriminate Hd).
+  cbn [base_type] in Hb. destruct (base_type t) as [n' b'] eqn:E. inversion Hb; subst.
+  destruct g as [|g]; [lia|]. rewrite spec_fold_S. cbn [under].
+  destruct v; try discriminate Hv; [reflexivity|].
+  cbn [deref] in Hd. cbn [hty under] in Hv. eapply IHt; eauto. lia.
+Qed.
+
+Lemma spec_empty_ptr t : forall m b v bv g,
+  base_type t = (m, b) -> deref m v = Some bv -> spec_empty (m + g) t v = spec_empty g b bv.
+Proof.
+  induction t; intros m b v bv g Hb Hd;
+    try (inversion Hb; subst; cbn [deref] in Hd; inversion Hd; subst; reflexivity).
+  cbn [base_type] in Hb. destruct (base_type t) as [n' b'] eqn:E. inversion Hb; subst.
+  cbn [deref] in Hd. destruct v; try discriminate Hd.
+  cbn [Nat.add]. rewrite spec_empty_S. cbn [under]. apply IHt; [reflexivity|exact Hd].
+Qed.
+
+Lemma spec_empty_nilptr t : forall m b v g,
+  base_type t = (m, b) -> deref m v = None -> hty t v = true -> (m <= g)%nat ->
+  spec_empty g t v = true.
+Proof.
+  induction t; intros m b v g Hb Hd Hv Hg;
+    try (inversion Hb; subst; cbn [deref] in Hd; discriminate Hd).
+  cbn [base_type] in Hb. destruct (base_type t) as [n' b'] eqn:E. inversion Hb; subst.
+  destruct g as [|g]; [lia|]. rewrite spec_empty_S. cbn [under].
+  destruct v; try discriminate Hv; [reflexivity|].
+  cbn [deref] in Hd. cbn [hty under] in Hv. eapply IHt; eauto. lia.
+Qed.
+
+Lemma Sim_ptr f t : forall m b v bv g inif,
+  base_type t = (m, b) -> deref m v = Some bv -> Sim f (m + g) inif t v = Sim f g inif b bv.
+Proof.
+  induction t; intros m b v bv g inif Hb Hd;
+    try (inversion Hb; subst; cbn [deref] in Hd; inversion Hd; subst; reflexivity).
+  cbn [base_type] in Hb. destruct (base_type t) as [n' b'] eqn:E. inversion Hb; subst.
+  cbn [deref] in Hd. destruct v; try discriminate Hd.
+  cbn [Nat.add]. rewrite Sim_S. cbn [under]. apply IHt; [reflexivity|exact Hd].
+Qed.
+
+Lemma Sim_nilptr f t : forall m b v g,
+  base_type t = (m, b) -> deref m v = None -> hty t v = true -> (m <= g)%nat ->
+  Sim f g false t v = Some [].
+Proof.
+  induction t; intros m b v g Hb Hd Hv Hg;
+    try (inversion Hb; subst; cbn [deref] in Hd; discriminate Hd).
+  cbn [base_type] in Hb. destruct (base_type t) as [n' b'] eqn:E. inversion Hb; subst.
+  destruct g as [|g]; [lia|]. rewrite Sim_S. cbn [under].
+  destruct v; try discriminate Hv; [reflexivity|].
+  cbn [deref] in Hd. cbn [hty under] in Hv. eapply IHt; eauto. lia.
+Qed.
+
+(* "the documented value of v : t is c" (with any sufficient fuel) *)
+Definition sfv (t : gtype) (v : gvalue) (c : cvalue) : Prop :=
+  forall g, (msz t v < g)%nat -> spec_fold g t v = Some c.
+
+Lemma msz_base t m b v bv : base_type t = (m, b) -> deref m v = Some bv ->
+  msz t v = (2 * m + msz b bv)%nat.
+Proof.
+  intros Hb Hd. unfold msz. rewrite (base_tsize t m b Hb), (deref_vsize m v bv Hd). lia.
+Qed.
+
+Lemma sfv_ptr t m b v bv c : base_type t = (m, b) -> deref m v = Some bv ->
+  sfv b bv c -> sfv t v c.
+Proof.
+  intros Hb Hd H g Hg. rewrite (msz_base t m b v bv Hb Hd) in Hg.
+  replace g with (m + (g - m))%nat by lia. rewrite (spec_fold_ptr t m b v bv _ Hb Hd).
+  apply H. lia.
+Qed.
+
+Lemma sfv_nilptr t m b v : base_type t = (m, b) -> deref m v = None -> hty t v = true ->
+  sfv t v CNil.
+Proof.
+  intros Hb Hd Hv g Hg. apply (spec_fold_nilptr t m b v g Hb Hd Hv).
+  unfold msz in Hg. rewrite (base_tsize t m b Hb) in Hg. lia.
+Qed.
+
+Lemma sfv_iface dt dv c : sfv dt dv c -> sfv TIface (GIface dt dv) c.
+Proof.
+  intros H g Hg. unfold msz in Hg. cbn [tsize vsize] in Hg. destruct g as [|g]; [lia|].
+  rewrite spec_fold_S. cbn [under]. apply H. unfold msz. lia.
+Qed.
+
+Lemma spec_fold_under g t t' v : under t = under t' -> spec_fold g t v = spec_fold g t' v.
+Proof. intro H. destruct g; [reflexivity|]. rewrite !spec_fold_S, H. reflexivity. Qed.
+
+Lemma sfv_named u v c : named_ok u = true -> sfv u v c -> sfv (TNamed u) v c.
+Proof.
+  intros Hn H g Hg. rewrite (spec_fold_under g (TNamed u) u).
+  - apply H. unfold msz in *. cbn [tsize] in Hg. lia.
+  - destruct u; try discriminate Hn; reflexivity.
+Qed.
+
+(* ---------- values of trees ---------- *)
+Definition cvt (tr : tree) : cvalue := cv (value_of tr).
+Definition cvm (ms : list (bytes * bool * tree)) : list (bytes * cvalue) :=
+  map (fun m => (fst (fst m), cvt (snd m))) ms.
+
+Lemma cvt_obj len bt ms : cvt (TObj len bt ms) = CObj (cvm ms).
+Proof. unfold cvt, cvm. cbn [value_of cv]. rewrite map_map. reflexivity. Qed.
+Lemma cvt_arr len bt es : cvt (TArr len bt es) = CArr (map cvt es).
+Proof. unfold cvt. cbn [value_of cv]. rewrite map_map. reflexivity. Qed.
+Lemma cvt_val s : cvt (TVal s false) = cv (scalar_value s).
+Proof. reflexivity. Qed.
+Lemma cvm_app a b : cvm (a ++ b) = cvm a ++ cvm b.
+Proof. apply map_app. Qed.
+
+Definition okc (t : gtype) (v : gvalue) (evs : list event) : Prop :=
+  exists tr, evs = flatten tr /\ sfv t v (cvt tr).
+
+Lemma opt_all_Forall2 {A B C} (f : A -> option B) (h : C -> B) l es :
+  Forall2 (fun x e => f x = Some (h e)) l es -> opt_all (map f l) = Some (map h es).
+Proof.
+  induction 1 as [|x e l es Hx _ IH]; [reflexivity|]. cbn [map opt_all]. rewrite Hx, IH. reflexivity.
+Qed.
+
+Lemma Forall2_impl_in {A B} (P Q : A -> B -> Prop) l es :
+  (forall x e, In x l -> P x e -> Q x e) -> Forall2 P l es -> Forall2 Q l es.
+Proof.
+  intros H HF. induction HF as [|x e l es Hx _ IH]; constructor.
+  - apply H; [left; reflexivity|exact Hx].
+  - apply IH. intros y e' Hy. apply H. right. exact Hy.
+Qed.
+
+Lemma list_sfv et l es g :
+  Forall2 (fun x tr => sfv et x (cvt tr)) l es -> (tsize et + vsum l < g)%nat ->
+  opt_all (map (spec_fold g et) l) = Some (map cvt es).
+Proof.
+  intros HF Hg. apply opt_all_Forall2. eapply Forall2_impl_in; [|exact HF].
+  intros x e Hx Hs. cbv beta in *. apply Hs. pose proof (vsum_in x l Hx). unfold msz. lia.
+Qed.
+
+Lemma map_sfv et (kvs : list (bytes * gvalue)) ms g :
+  Forall2 (fun kv m => fst m = (fst kv, false) /\ sfv et (snd kv) (cvt (snd m))) kvs ms ->
+  (tsize et + vsum_kv kvs < g)%nat ->
+  opt_all (map (fun kv => match spec_fold g et (snd kv) with
+                          | Some x => Some (fst kv, x) | None => None end) kvs) = Some (cvm ms).
+Proof.
+  intros HF Hg. unfold cvm. apply opt_all_Forall2. eapply Forall2_impl_in; [|exact HF].
+  intros kv m Hkv [H1 H2]. cbv beta in *. rewrite H2.
+  - rewrite H1. reflexivity.
+  - pose proof (vsum_kv_in kv kvs Hkv). unfold msz. lia.
+Qed.
+
+Lemma sfv_slice et v es : hty (TSlice et) v = true ->
+  Forall2 (fun x tr => sfv et x (cvt tr)) (glist v) es ->
+  sfv (TSlice et) v (CArr (map cvt es)).
+Proof.
+  intros Hv HF g Hg. unfold msz in Hg. cbn [tsize] in Hg. destruct g as [|g]; [lia|].
+  rewrite spec_fold_S. cbn [under]. destruct v; try discriminate Hv.
+  - cbn [glist] in HF. inversion HF. reflexivity.
+  - cbn [glist] in HF. rewrite vsize_list in Hg. rewrite (list_sfv et vs es g HF) by lia. reflexivity.
+Qed.
+
+Lemma sfv_array n et v es : hty (TArray n et) v = true ->
+  Forall2 (fun x tr => sfv et x (cvt tr)) (glist v) es ->
+  sfv (TArray n et) v (CArr (map cvt es)).
+Proof.
+  intros Hv HF g Hg. unfold msz in Hg. cbn [tsize] in Hg. destruct g as [|g]; [lia|].
+  rewrite spec_fold_S. cbn [under]. destruct v; try discriminate Hv.
+  cbn [glist] in HF. rewrite vsize_list in Hg. rewrite (list_sfv et vs es g HF) by lia. reflexivity.
+Qed.
+
+Lemma sfv_map et v ms : hty (TMap et) v = true ->
+  Forall2 (fun kv m => fst m = (fst kv, false) /\ sfv et (snd kv) (cvt (snd m))) (gmap v) ms ->
+  sfv (TMap et) v (CObj (cvm ms)).
+Proof.
+  intros Hv HF g Hg. unfold msz in Hg. cbn [tsize] in Hg. destruct g as [|g]; [lia|].
+  rewrite spec_fold_S. cbn [under]. destruct v; try discriminate Hv.
+  - cbn [gmap] in HF. inversion HF. reflexivity.
+  - cbn [gmap] in HF. rewrite vsize_map in Hg. rewrite (map_sfv et kvs ms g HF) by lia. reflexivity.
+Qed.
+
+(* ---------- primitives ---------- *)
+Lemma canon_event k z : canon_num (num_event_kind k) z = canon_num k z.
+Proof. destruct k; reflexivity. Qed.
+
+Lemma prim_scalar_spec b t v s g :
+  prim_scalar b t v = Some s -> spec_fold (S g) t v = Some (cv (scalar_value s)).
+Proof.
+  intro H. rewrite spec_fold_S.
+  destruct t; try discriminate H; destruct v; try discriminate H; cbn [prim_scalar] in H;
+    inversion H; subst; cbn [under scalar_value cv]; try reflexivity.
+  unfold spec_num. destruct b; [reflexivity|]. rewrite canon_event. reflexivity.
+Qed.
+
+Lemma prim_scalar_sfv b t v s : prim_scalar b t v = Some s -> sfv t v (cv (scalar_value s)).
+Proof.
+  intros H g Hg. destruct g as [|g]; [lia|]. eapply prim_scalar_spec; eauto.
+Qed.
+
+Lemma xscalar_sfv e x : is_prim e = true -> hty e x = true ->
+  sfv e x (cv (scalar_value (xscalar e x))).
+Proof.
+  intros He Hx g Hg. destruct g as [|g]; [lia|]. rewrite spec_fold_S.
+  destruct e; try discriminate He; destruct x; try discriminate Hx; reflexivity.
+Qed.
+
+Lemma xscalar_sfv_byte x : hty (TNum KUint8) x = true ->
+  sfv (TNum KUint8) x
+    (cv (scalar_value (match xscalar (TNum KUint8) x with SNum _ z => SNum KByte z | s => s end))).
+Proof.
+  intros Hx g Hg. destruct g as [|g]; [lia|]. rewrite spec_fold_S.
+  destruct x; try discriminate Hx; reflexivity.
+Qed.
+
+Lemma cvt_xarr bt ss : cvt (TXArr bt ss) = CArr (map (fun s => cv (scalar_value s)) ss).
+Proof. unfold cvt. cbn [value_of cv]. rewrite map_map. reflexivity. Qed.
+Lemma cvt_xobj bt ms : cvt (TXObj bt ms) = CObj (map (fun m => (fst m, cv (scalar_value (snd m)))) ms).
+Proof. unfold cvt. cbn [value_of cv]. rewrite map_map. reflexivity. Qed.
+
+Lemma okc_val t v s : sfv t v (cv (scalar_value s)) -> okc t v [EVal s].
+Proof. intro H. exists (TVal s false). split; [symmetry; apply flatten_val|exact H]. Qed.
+
+Lemma Forall2_map_r {A B C} (R : A -> C -> Prop) (h : B -> C) (l : list A) (l' : list B) :
+  Forall2 (fun x y => R x (h y)) l l' -> Forall2 R l (map h l').
+Proof. induction 1; constructor; assumption. Qed.
+
+Lemma Forall2_self_map {A C} (R : A -> C -> Prop) (h : A -> C) (l : list A) :
+  (forall x, In x l -> R x (h x)) -> Forall2 R l (map h l).
+Proof.
+  induction l as [|x l IH]; intro H; constructor.
+  - apply H. left. reflexivity.
+  - apply IH. intros y Hy. apply H. right. exact Hy.
+Qed.
+
+Lemma prim_fold_okc top t v evs :
+  type_ok t = true -> hty t v = true -> prim_fold top t v = Some evs -> okc t v evs.
+Proof.
+  intros Ht Hv H. unfold prim_fold in H.
+  destruct t; try discriminate H.
+  - destruct (prim_scalar false TBool v) eqn:E; [|discriminate H]. inversion H; subst.
+    apply okc_val. eapply prim_scalar_sfv; eauto.
+  - destruct (prim_scalar false TString v) eqn:E; [|discriminate H]. inversion H; subst.
+    apply okc_val. eapply prim_scalar_sfv; eauto.
+  - destruct (prim_scalar false (TNum k) v) eqn:E; [|discriminate H]. inversion H; subst.
+    apply okc_val. eapply prim_scalar_sfv; eauto.
+  - destruct (is_prim t) eqn:Ep; [|discriminate H]. inversion H; subst. clear H.
+    pose proof (hty_slice_list _ _ Hv) as Hl. rewrite forallb_forall in Hl.
+    eexists (TXArr _ _). split; [reflexivity|]. rewrite cvt_xarr, map_map.
+    set (h := fun x => TVal (match
+             (if top && gtype_eqb t (TNum KUint8) then BByte else prim_bt t), xscalar t x with
+             | BByte, SNum _ z => SNum KByte z | _, s => s end) false).
+    rewrite (map_ext _ (fun x => cvt (h x))) by reflexivity. rewrite <- (map_map h cvt).
+    apply sfv_slice; [exact Hv|]. apply Forall2_self_map. intros x Hx. specialize (Hl x Hx).
+    unfold h. rewrite cvt_val.
+    destruct (top && gtype_eqb t (TNum KUint8)) eqn:Eb.
+    + apply andb_true_iff in Eb. destruct Eb as [_ Eb]. apply gtype_eqb_u8 in Eb. subst t.
+      apply xscalar_sfv_byte. exact Hl.
+    + pose proof (xscalar_sfv t x Ep Hl) as Hs. pose proof (prim_bt_not_byte t Ep Ht) as Hnb.
+      destruct (prim_bt t); try exact Hs. discriminate Hnb.
+  - destruct (is_prim t) eqn:Ep; [|discriminate H]. inversion H; subst. clear H.
+    pose proof (hty_map_list _ _ Hv) as Hl. rewrite forallb_forall in Hl.
+    eexists (TXObj _ _). split; [reflexivity|]. rewrite cvt_xobj, map_map. cbn [fst snd].
+    set (h := fun kv : bytes * gvalue => (fst kv, false, TVal (xscalar t (snd kv)) false)).
+    rewrite (map_ext _ (fun kv => (fst (fst (h kv)), cvt (snd (h kv))))) by reflexivity.
+    rewrite <- (map_map h (fun m => (fst (fst m), cvt (snd m)))). fold (cvm (map h (gmap v))).
+    apply sfv_map; [exact Hv|]. apply Forall2_self_map. intros kv Hkv. specialize (Hl kv Hkv).
+    apply andb_true_iff in Hl. destruct Hl as [_ Hx]. unfold h. cbn [fst snd]. split; [reflexivity|].
+    rewrite cvt_val. apply xscalar_sfv; assumption.
+Qed.
+
+(* ---------- omitempty: the resolver chain against spec_empty ---------- *)
+Lemma spec_empty_ptr_false t : forall m b v bv,
+  base_type t = (m, b) -> deref m v = Some bv ->
+  (forall g, spec_empty g b bv = false) -> forall g, spec_empty g t v = false.
+Proof.
+  induction t; intros m b v bv Hb Hd H g;
+    try (inversion Hb; subst; cbn [deref] in Hd; inversion Hd; subst; apply H).
+  cbn [base_type] in Hb. destruct (base_type t) as [n' b'] eqn:E. inversion Hb; subst.
+  cbn [deref] in Hd. destruct v; try discriminate Hd.
+  destruct g as [|g]; [apply spec_empty_O|]. rewrite spec_empty_S. cbn [under].
+  eapply IHt; eauto.
+Qed.
+
+Lemma no_resolver_nonempty dt : has_resolver dt = false -> forall g v, spec_empty g dt v = false.
+Proof.
+  unfold has_resolver. intros H g v. destruct g as [|g]; [apply spec_empty_O|].
+  rewrite spec_empty_S. destruct (under dt); try discriminate H; destruct v; reflexivity.
+Qed.
+
+Lemma under_iface t : type_ok t = true -> under t = TIface -> t = TIface.
+Proof. destruct t; try discriminate; [reflexivity|]. cbn [under type_ok]. intros H E. subst. discriminate H. Qed.
+
+Lemma under_not_ptr t u : type_ok t = true -> under t = TPtr u -> t = TPtr u.
+Proof. destruct t; try discriminate; [intros _ E; exact E|]. cbn [under type_ok]. intros H E. subst. discriminate H. Qed.
+
+Lemma under_not_named t u : type_ok t = true -> under t = TNamed u -> False.
+Proof. destruct t; try discriminate. cbn [under type_ok]. intros H E. subst. discriminate H. Qed.
+
+Lemma resolve_spec : forall f t v, type_ok t = true -> hty t v = true ->
+  match resolve f t v with
+  | None => (vsize v <= f)%nat -> forall g, (msz t v <= g)%nat -> spec_empty g t v = true
+  | Some (t', v') =>
+      (forall g, spec_empty g t v = false) /\ (vsize v' <= vsize v)%nat /\
+      (forall c, sfv t' v' c -> sfv t v c)
+  end.
+Proof.
+  induction f as [|f IH]; intros t v Ht Hv.
+  { cbn [resolve]. intro Hf. pose proof (vsize_pos v). lia. }
+  cbn [resolve]. destruct (base_type t) as [n bt] eqn:Eb.
+  destruct (deref n v) as [bv|] eqn:Ed.
+  2:{ intros _ g Hg. eapply spec_empty_nilptr; eauto.
+      unfold msz in Hg. rewrite (base_tsize t n bt Eb) in Hg. lia. }
+  destruct (hty_base t n bt v bv Ht Hv Eb Ed) as [Hbt Hbv].
+  pose proof (deref_vsize n v bv Ed) as Hvs. pose proof (msz_base t n bt v bv Eb Ed) as Hm.
+  (* what is needed at the base type, transported along the pointers *)
+  assert (KS : (forall g, spec_empty g bt bv = false) ->
+               (forall g, spec_empty g t v = false) /\ (vsize bv <= vsize v)%nat /\
+               (forall c, sfv bt bv c -> sfv t v c)).
+  { intro H. split; [eapply spec_empty_ptr_false; eauto|]. split; [lia|].
+    intros c Hc. eapply sfv_ptr; eauto. }
+  assert (KN : (forall g, (msz bt bv <= S g)%nat -> spec_empty (S g) bt bv = true) ->
+               forall g, (msz t v <= g)%nat -> spec_empty g t v = true).
+  { intros H g Hg. replace g with (n + S (g - n - 1))%nat
+      by (unfold msz in *; pose proof (vsize_pos bv); pose proof (tsize_pos bt); lia).
+    rewrite (spec_empty_ptr t n bt v bv _ Eb Ed). apply H. lia. }
+  destruct (under bt) as [ | |k| |u|u|n0 u|u|u|l|u| ] eqn:Eu.
+  - (* bool *) apply KS. intros [|g]; [apply spec_empty_O|]. rewrite spec_empty_S, Eu. destruct bv; reflexivity.
+  - (* string *)
+    destruct bv; cbn [hty] in Hbv; rewrite Eu in Hbv; try discriminate Hbv. cbn [glen].
+    destruct (zlen s >? 0) eqn:Eg; rewrite Z.gtb_ltb in Eg.
+    + apply KS. intros [|g]; [apply spec_empty_O|]. rewrite spec_empty_S, Eu. lia.
+    + intros _. apply KN. intros g _. rewrite spec_empty_S, Eu. unfold zlen in *. lia.
+  - (* num *) apply KS. intros [|g]; [apply spec_empty_O|]. rewrite spec_empty_S, Eu. destruct bv; reflexivity.
+  - (* interface *)
+    apply under_iface in Eu; [|exact Hbt]. subst bt.
+    destruct bv; try discriminate Hbv.
+    + intros _. apply KN. intros g _. rewrite spec_empty_S. reflexivity.
+    + apply hty_iface_inv in Hbv. destruct Hbv as (H1 & _ & H3).
+      destruct (has_resolver t0) eqn:Eh.
+      * specialize (IH t0 bv H1 H3). destruct (resolve f t0 bv) as [[t' v']|].
+        -- destruct IH as (A & B & C).
+           destruct KS as (K1 & K2 & K3).
+           { intros [|g]; [apply spec_empty_O|]. rewrite spec_empty_S. cbn [under]. apply A. }
+           split; [exact K1|]. split; [cbn [vsize] in K2; lia|].
+           intros c Hc. apply K3. apply sfv_iface. apply C. exact Hc.
+        -- intros Hf. apply KN. intros g Hg. rewrite spec_empty_S. cbn [under].
+           unfold msz in Hg. cbn [tsize vsize] in Hg, Hvs. apply IH; [lia|unfold msz; lia].
+      * apply KS. intros [|g]; [apply spec_empty_O|]. rewrite spec_empty_S. cbn [under].
+        apply no_resolver_nonempty. exact Eh.
+  - (* pointer: not a base type *)
+    exfalso. apply under_not_ptr in Eu; [|exact Hbt]. exact (base_type_not_ptr t n bt Eb u Eu).
+  - (* slice *)
+    destruct bv; cbn [hty] in Hbv; rewrite Eu in Hbv; try discriminate Hbv; cbn [glen].
+    + intros _. apply KN. intros g _. rewrite spec_empty_S, Eu. reflexivity.
+    + destruct (zlen vs >? 0) eqn:Eg; rewrite Z.gtb_ltb in Eg.
+      * apply KS. intros [|g]; [apply spec_empty_O|]. rewrite spec_empty_S, Eu. lia.
+      * intros _. apply KN. intros g _. rewrite spec_empty_S, Eu. unfold zlen in *. lia.
+  - (* array *)
+    destruct bv; cbn [hty] in Hbv; rewrite Eu in Hbv; try discriminate Hbv; cbn [glen].
+    destruct (zlen vs >? 0) eqn:Eg; rewrite Z.gtb_ltb in Eg.
+    + apply KS. intros [|g]; [apply spec_empty_O|]. rewrite spec_empty_S, Eu. lia.
+    + intros _. apply KN. intros g _. rewrite spec_empty_S, Eu. unfold zlen in *. lia.
+  - (* map *)
+    destruct bv; cbn [hty] in Hbv; rewrite Eu in Hbv; try discriminate Hbv; cbn [glen].
+    + intros _. apply KN. intros g _. rewrite spec_empty_S, Eu. reflexivity.
+    + destruct (zlen kvs >? 0) eqn:Eg; rewrite Z.gtb_ltb in Eg.
+      * apply KS. intros [|g]; [apply spec_empty_O|]. rewrite spec_empty_S, Eu. lia.
+      * intros _. apply KN. intros g _. rewrite spec_empty_S, Eu. unfold zlen in *. lia.
+  - (* map with another key type *)
+    destruct bv; cbn [hty] in Hbv; rewrite Eu in Hbv; try discriminate Hbv; cbn [glen].
+    + intros _. apply KN. intros g _. rewrite spec_empty_S, Eu. reflexivity.
+    + destruct (zlen kvs >? 0) eqn:Eg; rewrite Z.gtb_ltb in Eg.
+      * apply KS. intros [|g]; [apply spec_empty_O|]. rewrite spec_empty_S, Eu. lia.
+      * intros _. apply KN. intros g _. rewrite spec_empty_S, Eu. unfold zlen in *. lia.
+  - (* struct *) apply KS. intros [|g]; [apply spec_empty_O|]. rewrite spec_empty_S, Eu. destruct bv; reflexivity.
+  - exfalso. exact (under_not_named bt u Hbt Eu).
+  - (* unsupported *) apply KS. intros [|g]; [apply spec_empty_O|]. rewrite spec_empty_S, Eu. destruct bv; reflexivity.
+Qed.
